@@ -386,3 +386,124 @@ def check_atom_data_keys(chk) -> None:
                 )
             else:
                 chk.ok("atom-data-keys", wp.site(st), f"supplies all {len(reads)} keys the formatter reads")
+
+
+# --------------------------------------------------------------------------------------------------------------------
+# round 4: the atom line decided on the text write_pdb produces for probe rows (whatever the formatter looks like)
+# --------------------------------------------------------------------------------------------------------------------
+BASE_ROW = {"record_type": "HETATM", "serial": 12345, "name": "HO5'", "altLoc": "B", "resName": "GTP", "chainID": "X", "resSeq": 1234, "iCode": "C", "x": 1234.567, "y": -123.456, "z": 12.345,
+            "occupancy": 0.75, "tempFactor": 123.45, "element": "MG", "charge": "2+", "model": 1}
+# another value of full width per field, and the text the format prescribes for it
+VARIANT = {"record_type": ("ATOM", "ATOM  "), "serial": (54321, "54321"), "name": ("1H5'", "1H5'"), "altLoc": ("A", "A"), "resName": ("PSU", "PSU"), "chainID": ("q", "q"), "resSeq": (-987, "-987"), "iCode": ("Z", "Z"),
+           "x": (-999.999, "-999.999"), "y": (8765.432, "8765.432"), "z": (-54.321, " -54.321"), "occupancy": (1.0, "  1.00"), "tempFactor": (-12.34, "-12.34"), "element": ("ZN", "ZN"), "charge": ("1-", "1-")}
+# short / special values: (field, value, text of the field's columns, which rule states it)
+SHORT = [
+    ("serial", 7, "    7", "justification"), ("resName", "G", "  G", "justification"), ("resSeq", -3, "  -3", "justification"), ("resSeq", 5, "   5", "justification"), ("element", "P", " P", "justification"),
+    ("record_type", "ATOM", "ATOM  ", "justification"), ("altLoc", None, " ", "justification"), ("iCode", None, " ", "justification"), ("element", None, "  ", "justification"),
+    ("name", "P", " P  ", "atom-name-alignment"), ("name", "C4'", " C4'", "atom-name-alignment"), ("name", "OP1", " OP1", "atom-name-alignment"), ("name", "N1", " N1 ", "atom-name-alignment"),
+    ("name", "HO5'", "HO5'", "atom-name-alignment"), ("name", "1HB", "1HB ", "atom-name-alignment"), ("name", "MG", " MG ", "atom-name-alignment"),
+    ("x", 0.5, "   0.500", "numeric-format"), ("x", 1.23456, "   1.235", "numeric-format"), ("y", -0.0004, "  -0.000", "numeric-format"), ("z", 100.0, " 100.000", "numeric-format"),
+    ("occupancy", 0.456, "  0.46", "numeric-format"), ("occupancy", 1, "  1.00", "numeric-format"), ("tempFactor", 7.125, "  7.12", "numeric-format"), ("tempFactor", 99.999, "100.00", "numeric-format"),
+    ("charge", None, "  ", "charge-format"), ("charge", "", "  ", "charge-format"), ("charge", "1+", "1+", "charge-format"), ("charge", "2-", "2-", "charge-format"), ("charge", "1", "1+", "charge-format"),
+    ("charge", "-2", "2-", "charge-format"), ("charge", 1, "1+", "charge-format"), ("charge", -2, "2-", "charge-format"), ("charge", "0", "  ", "charge-format"),
+]
+CIF_OF = {"record_type": "group_PDB", "serial": "id", "name": "auth_atom_id", "altLoc": "label_alt_id", "resName": "auth_comp_id", "chainID": "auth_asym_id", "resSeq": "auth_seq_id", "iCode": "pdbx_PDB_ins_code",
+          "x": "Cartn_x", "y": "Cartn_y", "z": "Cartn_z", "occupancy": "occupancy", "tempFactor": "B_iso_or_equiv", "element": "type_symbol", "charge": "pdbx_formal_charge", "model": "pdbx_PDB_model_num"}
+
+
+def _atom_line(call, fmt: str, row: Dict[str, Any]) -> str:
+    from sa.frame import frame_from_rows
+
+    r = dict(row)
+    if fmt == "mmCIF":
+        out: Dict[str, Any] = {}
+        for f, v in r.items():
+            for it in PDB_TO_CIF_ROW[f]:
+                out[it] = v
+        r = out
+    text = call(frame_from_rows([r], fmt), None)
+    if not isinstance(text, str):
+        raise Unknown("write_pdb(df, None) does not return text")
+    lines = [l for l in text.split("\n") if _kind(l) == "ATOM"]
+    if len(lines) != 1:
+        raise Raised("AssertionError", f"a one-row table is written as {len(lines)} atom lines")
+    return lines[0]
+
+
+def check_atom_line_eval(chk) -> Optional[Dict[str, Tuple[int, int]]]:
+    """Where each field of a row lands in the atom line and how it is formatted, read off the text write_pdb produces for probe rows.
+    Returns the column layout found (field -> columns), or None when write_pdb is not evaluable (the abstract width reading decides)."""
+    repo = chk.repo
+    sp = spec("pdb_columns.json")
+    try:
+        wp, call = write_pdb_callable(repo)
+    except Unknown:
+        return None
+    fm = repo.func(M, "_format_pdb_atom_line") if repo.has_func(M, "_format_pdb_atom_line") else wp
+    layout: Dict[str, Optional[Tuple[int, int]]] = {}
+    bad: Dict[str, List[str]] = {}
+    try:
+        for fmt in ("PDB", "mmCIF"):
+            base = _atom_line(call, fmt, BASE_ROW)
+            if len(base) != 80:
+                bad.setdefault("writer-layout", []).append(f"a {fmt} row is written as a line of {len(base)} columns, not 80")
+            for f, (val, text) in VARIANT.items():
+                if fmt == "mmCIF" and f == "charge":
+                    val = -1  # the mmCIF item holds an integer
+                line = _atom_line(call, fmt, dict(BASE_ROW, **{f: val}))
+                diff = [i for i in range(max(len(base), len(line))) if (base[i] if i < len(base) else None) != (line[i] if i < len(line) else None)]
+                lo, hi = sp["atom"][f]
+                cols = (min(diff), max(diff) + 1) if diff else None
+                if fmt == "PDB":
+                    layout[f] = cols
+                if not diff or cols[0] < lo or cols[1] > hi:
+                    bad.setdefault("writer-layout", []).append(f"{fmt} row: changing {f} changes columns {None if cols is None else (cols[0] + 1, cols[1])}, the format gives {f} columns {lo + 1}-{hi}")
+                elif line[lo:hi] != text:
+                    bad.setdefault("writer-layout", []).append(f"{fmt} row: {f} = {val!r} is written as `{line[lo:hi]}` in columns {lo + 1}-{hi}, the format says `{text}`")
+                if len(line) != 80 and len(base) == 80:
+                    bad.setdefault("writer-layout", []).append(f"{fmt} row with {f} = {val!r}: the line has {len(line)} columns")
+            for f, val, text, rule in SHORT:
+                v = val
+                if fmt == "mmCIF" and f == "charge":
+                    if isinstance(val, str) and val and val[-1] in "+-":
+                        continue  # digit+sign strings are PDB values; the mmCIF item is an integer
+                row = dict(BASE_ROW, **{f: v})
+                try:
+                    line = _atom_line(call, fmt, row)
+                except Raised as ex:
+                    bad.setdefault(rule, []).append(f"{fmt} row with {f} = {val!r}: write_pdb raises {ex.name}")
+                    continue
+                except Unknown:
+                    raise
+                except Exception as ex:
+                    bad.setdefault(rule, []).append(f"{fmt} row with {f} = {val!r}: write_pdb raises {type(ex).__name__} ({str(ex)[:40]})")
+                    continue
+                lo, hi = sp["atom"][f]
+                if line[lo:hi] != text or len(line) != 80:
+                    bad.setdefault(rule, []).append(f"{fmt} row: {f} = {val!r} is written as `{line[lo:hi]}` (columns {lo + 1}-{hi}, line of {len(line)}), the format says `{text}`")
+    except Unknown as ex:
+        chk.ok("atom-line-eval", fm.where, f"the atom line is not evaluable on probe rows ({str(ex)[:80]}): the abstract width reading of the formatter decides")
+        return None
+    except Raised as ex:
+        chk.ok("atom-line-eval", fm.where, f"probe rows are refused ({ex.name}): the abstract width reading of the formatter decides")
+        return None
+    texts = {
+        "writer-layout": "evaluated on probe rows (PDB and mmCIF row format): every field is written to its own columns of the 80-column record, full-width values fill them exactly",
+        "justification": "evaluated: serial, residue name, residue number and element right-justified, record name left-justified, absent optional fields blank",
+        "atom-name-alignment": "evaluated: names of 1-3 characters starting with a letter begin in column 14, 4-character names and names starting with a digit in column 13",
+        "numeric-format": "evaluated: coordinates with three decimals in 8 columns, occupancy and B-factor with two decimals in 6 columns, rounded",
+        "charge-format": "evaluated: a numeric charge n is written as |n| followed by its sign, digit+sign strings are kept, absent / zero charge is blank",
+    }
+    with evidence(chk, *texts):
+        for rule, text in texts.items():
+            if rule in bad:
+                chk.violation(rule, fm.where, "; ".join(bad[rule][:3]), K(fm, f"atom-line:{rule}"), found=bad[rule][:6])
+            elif rule == "writer-layout":
+                for f in sp["atom"]:
+                    lo, hi = sp["atom"][f]
+                    chk.ok(rule, fm.where, f"evaluated: {f} is written to columns {lo + 1}-{hi}")
+                chk.ok(rule, fm.where, "evaluated: the record is 80 columns long for every probe row")
+                chk.ok(rule, fm.where, text)
+            else:
+                chk.ok(rule, fm.where, text)
+    return {f: c for f, c in layout.items() if c is not None}
